@@ -202,7 +202,7 @@ pub(crate) mod __verif {
         kani::cover!(true);
     }
 
-    // @obligation name=h5_remove_empties_loop props= fn=optimizer::remove_empties kind=bounded bound="Loop nodes with symbolic quantifier and enclosed-group range over an Empty or Char body; empty/non-empty ByteSequence" min_checks=50 w=2 timeout=900
+    // @obligation name=h5_remove_empties_loop props=C03,C16:t fn=optimizer::remove_empties kind=bounded bound="Loop nodes with symbolic quantifier and enclosed-group range over an Empty or Char body; empty/non-empty ByteSequence" min_checks=50 w=2 timeout=900
     // remove_empties removes a Loop only if its body is Empty, or it can run zero times at most AND encloses no capture
     // group (a group must keep its slot); an empty ByteSequence is removed, a non-empty one kept.
     #[kani::proof]
@@ -271,6 +271,85 @@ pub(crate) mod __verif {
         }
         core::mem::forget(r);
         core::mem::forget(n);
+        kani::cover!(true);
+    }
+
+    // ---------------------------------------------------------------------------------------------
+    // Whole optimizer (all passes to fixpoint through the recursive tree walk) on small IR trees.
+
+    fn opt(node: Node) -> &'static Regex {
+        let re: &'static mut Regex = Box::leak(Box::new(Regex { node, flags: crate::api::Flags::default() }));
+        optimize(re);
+        re
+    }
+
+    // @obligation name=h6_optimize_two_chars props= fn=optimizer::optimize,optimizer::run_pass,ir::walk_mut kind=bounded bound="IR Cat[Char a, Char b], symbolic ASCII a b" min_checks=50 w=3 timeout=1500
+    // optimize() on the IR of /ab/: the result is the single literal ByteSequence [a, b] (same text, source order).
+    #[kani::proof]
+    #[kani::unwind(5)]
+    fn h6_optimize_two_chars() {
+        let a: u8 = kani::any();
+        let b: u8 = kani::any();
+        kani::assume(a < 128 && b < 128);
+        let re = opt(Node::Cat(vec![Node::Char { c: a as u32 }, Node::Char { c: b as u32 }]));
+        match &re.node {
+            Node::ByteSequence(v) => assert!(v.len() == 2 && v[0] == a && v[1] == b),
+            _ => assert!(false, "two literal chars become one literal byte sequence in source order"),
+        }
+        kani::cover!(true);
+    }
+
+    // @obligation name=h6_run_pass_form_literal_bytes props= fn=optimizer::run_pass,optimizer::Pass::run_to_fixpoint,optimizer::Pass::run_postorder,ir::walk_mut,ir::MutWalker::process kind=bounded bound="IR Cat[Char a, Char b] and (?<=..) with the reversed Cat, symbolic ASCII a b" min_checks=50 w=3 timeout=1500
+    // run_pass(form_literal_bytes) applied through the real post-order tree walk to fixpoint: /ab/ becomes
+    // Cat[empty literal, literal "ab"]; inside a lookbehind (children reversed by the parser) the literal is again "ab" in
+    // source order - the walk passes the lookbehind context down to the pass function and restores it afterwards.
+    #[kani::proof]
+    #[kani::unwind(5)]
+    fn h6_run_pass_form_literal_bytes() {
+        h6_body(false);
+    }
+
+    // @obligation name=h6_run_pass_form_literal_bytes_lookbehind props= fn=optimizer::run_pass,ir::walk_mut kind=bounded bound="IR (?<=ab) with the reversed Cat, symbolic ASCII a b" min_checks=50 w=3 timeout=1500
+    // The same inside a lookbehind.
+    #[kani::proof]
+    #[kani::unwind(5)]
+    fn h6_run_pass_form_literal_bytes_lookbehind() {
+        h6_body(true);
+    }
+
+    fn h6_body(lb: bool) {
+        let a: u8 = kani::any();
+        let b: u8 = kani::any();
+        kani::assume(a < 128 && b < 128);
+        let cat = if lb {
+            Node::Cat(vec![Node::Char { c: b as u32 }, Node::Char { c: a as u32 }])
+        } else {
+            Node::Cat(vec![Node::Char { c: a as u32 }, Node::Char { c: b as u32 }])
+        };
+        let node = if lb {
+            Node::LookaroundAssertion { negate: false, backwards: true, start_group: 0, end_group: 0, contents: Box::new(cat) }
+        } else {
+            cat
+        };
+        let re: &'static mut Regex = Box::leak(Box::new(Regex { node, flags: crate::api::Flags::default() }));
+        let changed = run_pass(re, &mut form_literal_bytes);
+        assert!(changed);
+        let inner = match &re.node {
+            Node::LookaroundAssertion { contents, .. } => &**contents,
+            other => other,
+        };
+        match inner {
+            Node::Cat(v) => {
+                assert!(v.len() == 2);
+                match (&v[0], &v[1]) {
+                    (Node::ByteSequence(p), Node::ByteSequence(q)) => {
+                        assert!(p.len() == 0 && q.len() == 2 && q[0] == a && q[1] == b, "literal text in source order");
+                    }
+                    _ => assert!(false),
+                }
+            }
+            _ => assert!(false),
+        }
         kani::cover!(true);
     }
 }
